@@ -191,21 +191,27 @@ type recEntry struct {
 func (f recFS) rec(op string, paths ...string) {
 	*f.log = append(*f.log, recEntry{f.name, op, paths})
 }
-func (f recFS) Create(name string) (ros.File, error) { f.rec("create", name); return nil, fs.ErrNotExist }
+func (f recFS) Create(name string) (ros.File, error) {
+	f.rec("create", name)
+	return nil, fs.ErrNotExist
+}
 func (f recFS) Mkdir(name string, perm ros.FileMode) error {
 	f.rec("mkdir", name)
 	return nil
 }
 func (f recFS) MkdirAll(path string, perm ros.FileMode) error { f.rec("mkdirall", path); return nil }
-func (f recFS) Open(name string) (ros.File, error)          { f.rec("open", name); return nil, fs.ErrNotExist }
+func (f recFS) Open(name string) (ros.File, error)            { f.rec("open", name); return nil, fs.ErrNotExist }
 func (f recFS) OpenFile(name string, flag int, perm ros.FileMode) (ros.File, error) {
 	f.rec("openfile", name)
 	return nil, fs.ErrNotExist
 }
-func (f recFS) ReadFile(name string) ([]byte, error) { f.rec("readfile", name); return nil, fs.ErrNotExist }
-func (f recFS) Remove(name string) error             { f.rec("remove", name); return nil }
-func (f recFS) RemoveAll(path string) error          { f.rec("removeall", path); return nil }
-func (f recFS) Rename(o, n string) error             { f.rec("rename", o, n); return nil }
+func (f recFS) ReadFile(name string) ([]byte, error) {
+	f.rec("readfile", name)
+	return nil, fs.ErrNotExist
+}
+func (f recFS) Remove(name string) error    { f.rec("remove", name); return nil }
+func (f recFS) RemoveAll(path string) error { f.rec("removeall", path); return nil }
+func (f recFS) Rename(o, n string) error    { f.rec("rename", o, n); return nil }
 func (f recFS) Stat(name string) (ros.FileInfo, error) {
 	f.rec("stat", name)
 	return nil, fs.ErrNotExist
